@@ -65,7 +65,11 @@ func NewShard(dbFile string, collection models.Collection, cacheManager *cache.M
 }
 
 func (s *Shard) Close() error {
-	s.cacheManager.Release(s.dbFile)
+	// The index caches are shared under the database file followed by the
+	// bucket of the index, see the index manager.
+	for propName, params := range s.collection.IndexSchema {
+		s.cacheManager.Release(fmt.Sprintf("%s/index/%s/%s", s.dbFile, params.Type, propName))
+	}
 	return s.db.Close()
 }
 
